@@ -108,6 +108,17 @@ def make_pool():
     add("Prefixed(Seek(-1,1))", C.Prefixed(C.Byte, C.Struct("a" / C.Bytes(2), C.Seek(-1, 1), "b" / C.Byte, "r" / C.GreedyBytes)), B + [b"\x04wxyz", b"\x02pq"], [dict(a=b"ab", b=1, r=b"")])
     add("Struct(h,FixedSized(NullTerminated(consume=False)))", C.Struct("h" / C.Int16ub, "f" / C.FixedSized(4, C.Sequence(C.NullTerminated(C.GreedyBytes, consume=False), C.GreedyBytes)), "t" / C.Byte),
         B + [b"\x01\x02a\x00bc\x09", b"\x01\x02\x00abc\x09"], [dict(h=1, f=[b"a", b"\x00b"], t=9)])
+    # seek targets read from the data (a failing seek must be the same StreamError from bytes, in-memory streams and files)
+    add("Seek(this.n)", C.Struct("n" / C.Int8sb, C.Seek(this.n, 0), "x" / C.Byte), B + [b"\xfb\x01\x02", b"\x02\x01\x02\x03", b"\x80"], [dict(n=1, x=5)], posfree=False)
+    # (absolute targets: for end-relative targets before the start of the data in-memory streams clamp and files raise - a difference
+    #  of the stream types themselves, not of the library)
+    add("Peek(Seek(this.n-3))", C.Struct("n" / C.Byte, "p" / C.Peek(C.Struct(C.Seek(this._.n - 3, 0), "v" / C.Byte)), "x" / C.Byte), B + [b"\x00\x01", b"\x04\x01\x02"], [dict(n=1, p=None, x=5)], posfree=False)
+    add("Select(Seek(n-2),Byte)", C.Struct("n" / C.Byte, "s" / C.Select(C.Struct(C.Seek(this._.n - 2, 0), "v" / C.Int16ub), C.Byte)), B + [b"\x02\x07\x08", b"\x00\x07"], [dict(n=0, s=7)], posfree=False)
+    # a caller-owned value object built repeatedly under different keyword contexts (what an earlier build did must not show)
+    shared_rc = dict(value=b"abcd")
+    add("RawCopy(Bytes(ctx))", C.RawCopy(C.Bytes(this._params.n)), B, [shared_rc, dict(value=b"ab"), shared_rc], posfree=False, kws=({"n": 4}, {"n": 2}, {"n": 3}))
+    add("Struct(RawCopy,Checksum)(ctx)", C.Struct("f" / C.RawCopy(C.Bytes(this._params.n)), "c" / C.Checksum(C.Byte, lambda d: sum(d) & 255, this.f.data)), B, [dict(f=shared_rc), dict(f=dict(value=b"wxyz"))],
+        posfree=False, kws=({"n": 4}, {"n": 2}))
     # per-call scratch state: a build with a list of the wrong length must not influence the next build
     add("Slicing(Array)", C.Slicing(C.Array(4, C.Byte), 4, 1, 3, empty=0), B + [b"\x01\x02\x03\x04"], [[5, 6], [5, 6, 7], [5], [8, 9]])
     add("Slicing(GreedyRange)", C.Slicing(C.GreedyRange(C.Byte), 4, 1, 3, empty=0), B, [[5, 6], [5, 6, 7], [], [8, 9]])
